@@ -440,8 +440,8 @@ def member_label(m) -> str:
 
 def decode_part(ctx: vlib.Ctx, mod, mem: Members):
     rng = ctx.rng
-    n_random = ctx.budget(70, 900)
-    n_inputs = ctx.budget(22, 40)
+    n_random = ctx.budget(140, 900)
+    n_inputs = ctx.budget(26, 40)
     specs = [(e, ent) for e in CURATED_UNIONS for ent in (("codec", "field") if ctx.quick() else ("codec", "field", "list"))]
     specs += [("int, str", "typevar"), ("date, str", "typevar"), ("int, Union[str, date]", "typevar"),
               ("List[int], str", "typevar"), ("int, Optional[date], str", "typevar")]
@@ -517,7 +517,7 @@ def corr(ctx, name, cases, info, ctype, funs):
     if not cases:
         ctx.correspondence(name, 0, 0, "no cases")
         return
-    cap = ctx.budget(1600, 16000)
+    cap = ctx.budget(2400, 16000)
     if len(cases) > cap:
         idx = sorted(ctx.rng.sample(range(len(cases)), cap))
         cases = [cases[i] for i in idx]
@@ -565,7 +565,7 @@ def encode_part(ctx: vlib.Ctx, mod, mem: Members):
     rng = ctx.rng
     specs = [(e, ent) for e in CURATED_ENC_UNIONS for ent in ("codec", "field")]
     seen = set(specs)
-    for _ in range(ctx.budget(50, 600)):
+    for _ in range(ctx.budget(120, 600)):
         s = gen_union_expr(rng, encode=True)
         if s not in seen:
             seen.add(s)
@@ -646,7 +646,7 @@ def literal_part(ctx: vlib.Ctx, mod, mem: Members):
     from mashumaro.core.meta.helpers import get_literal_values
     rng = ctx.rng
     specs = [(e, ent) for e in CURATED_LITS for ent in ("codec", "field")]
-    for _ in range(ctx.budget(25, 300)):
+    for _ in range(ctx.budget(50, 300)):
         k = rng.choice([1, 2, 2, 3, 4])
         specs.append((f"Literal[{', '.join(rng.sample(LIT_POOL, k))}]", rng.choice(["codec", "field", "list"])))
     lcases, linfo = [], []
